@@ -143,6 +143,8 @@ def loop_rules(ctx, crate, body):
     def relevant(atom):
         if status_atom(atom, True) is not None:
             return True
+        if atom[0] == "var" and body.locals[atom[1]]["ty"] == "bool":
+            return True           # a decision first stored in a bool (`let skip = ..`, the result of a helper / match)
         g = str_eq_atom(atom, True)
         return g is not None
 
@@ -245,7 +247,8 @@ def dollar_rule(ctx, crate):
                 srcs = []
                 for x in sorted(dom):
                     t = body.term(x)
-                    if t["k"] == "call" and last_seg(body.callee(t)) in ("new_display", "new_debug"):
+                    if t["k"] == "call" and last_seg(body.callee(t)) in ("new_display", "new_debug", "to_string") and \
+                            body.call_args(x):
                         srcs.append(body.call_args(x)[0])
                 name, pred = want[g[2]]
                 ok = any(flow.backward(body, s, pred) is not None for s in srcs)
@@ -273,12 +276,30 @@ def exit_rules(ctx, crate):
             # the returned expression(s): _0 assignments dominated by the run_lines call
             rets = [(bi, rs.def_expr(bi, si)) for bi, si in rs.defs.get(0, []) if rs.dominates(rl[0], bi)]
             detail = "; ".join(render(e)[:80] for _, e in rets)
-            ok = bool(rets) and all(
-                flow.backward(rs, e, lambda x: flow.is_field_named(x, "status") and
-                              flow.backward(rs, x[2], lambda y: flow.is_call_to(y, "last") and
-                                            flow.backward(rs, y, lambda z: flow.is_call_to(z, "run_lines")) is not None)
-                              is not None) is not None
-                for _, e in rets)
+            def direct(e):
+                return flow.backward(rs, e, lambda x: flow.is_field_named(x, "status") and
+                                     flow.backward(rs, x[2], lambda y: flow.is_call_to(y, "last") and
+                                                   flow.backward(rs, y, lambda z: flow.is_call_to(z, "run_lines")) is not None)
+                                     is not None) is not None
+
+            def through_closure(e):
+                # `run_lines(..).last().map_or(0, |last| last.status)`: an Option combinator on last() whose closure
+                # returns the status field of its argument
+                hit = flow.backward(rs, e, lambda x: x[0] == "call" and last_seg(x[1]) in ("map_or", "map", "map_or_else") and
+                                    any(flow.is_call_to(s_, "last") for s_ in mir.subexprs(x)) and
+                                    any(flow.is_call_to(s_, "run_lines") for s_ in mir.subexprs(rs.expand_vars(x))))
+                if hit is None:
+                    return False
+                for s_ in mir.subexprs(hit):
+                    if s_[0] == "agg" and isinstance(s_[1], str) and s_[1].startswith("closure:"):
+                        cb = crate.fn(s_[1][len("closure:"):].rstrip("()"))
+                        if cb is not None and all(
+                                flow.backward(cb, cb.def_expr(bi, si), lambda x: flow.is_field_named(x, "status") and
+                                              mir.root_local_expr(x[2]) is not None and cb.is_param(mir.root_local_expr(x[2])))
+                                is not None for bi, si in cb.defs.get(0, [])) and cb.defs.get(0):
+                            return True
+                return False
+            ok = bool(rets) and all(direct(e) or through_closure(e) for _, e in rets)
         ctx.ob("R03-5", rs.path, "run_script returns run_lines(..).last().status", ok,
                key="R03-5|%s|return" % rs.path, crate=crate.kind, detail=detail)
     if crate.kind != "bin":
@@ -365,6 +386,12 @@ def splitter_state_rule(ctx, crate, rule):
             sites = [(bi2, b.expand_vars(strip_sites(b.def_expr(bi2, si2)))) for bi2, si2 in b.defs[raw[1]] if bi2 in loop]
         for bi, e in sites:
             pending.append((l, bi, e))
+    # `state.clear()` / `state.truncate(0)` empty the string as well
+    for bb, t, c in b.calls():
+        if bb in loop and "String" in c and last_seg(c) in ("clear", "truncate") and b.call_args(bb):
+            l = mir.root_local_expr(b.expand_vars(strip_sites(b.call_args(bb)[0])))
+            if l in pushed and (last_seg(c) == "clear" or mir.const_int(b.call_args(bb)[1]) == 0):
+                pending.append((l, bb, ("const", ("str", ""))))
     for l, bi, e in pending:
         empty = (e[0] == "call" and last_seg(e[1]) == "new" and "String" in e[1]) or const_str(e) == ""
         if not empty:
